@@ -71,6 +71,46 @@ tagdebug_build() { # tagdebug_build <out>
   fi
 }
 
+# Build configurations THE TREE ITSELF distinguishes (cmd/vconfigs): when a package a check is anchored in
+# has a non-test file that the default build ignores because of a build constraint (a custom tag, a GOAMD64
+# level, !cgo), the quick tier of the check is run once more as a binary of the smallest configuration that
+# compiles that file in (mc: variant passes from VERIF_CFG_LIST). The unchanged tree has no such file.
+cfg_pkgs() {
+  local L=github.com/openacid/low
+  case "$1" in
+    C01|C02|C12|C13|C14|C15) echo $L/bitmap ;;
+    C03|C04|C05|C10) echo $L/bmtree ;;
+    C11) echo $L/bitmap $L/bmtree ;;
+    C06|C07) echo $L/pbcmpl ;;
+    C08) echo $L/bitword ;;
+    C09) echo $L/bitstr ;;
+    C16|C17) echo $L/sigbits ;;
+    C18) echo $L/iohelper ;;
+    C19) echo $L/bitmap $L/bmtree $L/bitstr $L/bitword $L/sigbits ;;
+    C20) echo $L/size ;;
+  esac
+}
+discover_cfgs() { # discover_cfgs <id> <dir>
+  local id=$1 d=$2 skip="" list name env tags i=0 bin
+  (cd "$H" && go build -o "$d/vconfigs" ./cmd/vconfigs) 2>/dev/null || return 0
+  case "$TAGDEBUG_PROPS C03 " in *" $id "*) skip="tags-debug" ;; esac
+  list=$(cd "$H" && "$d/vconfigs" ${VERIF_OVERLAY:+-overlay "$VERIF_OVERLAY"} -skip "$skip" $(cfg_pkgs "$id") 2>/dev/null)
+  VERIF_CFG_LIST=""; VERIF_CFG_NOTES=""
+  while IFS=$'\t' read -r name env tags; do
+    case "$name" in
+      "") continue ;;
+      \#*) VERIF_CFG_NOTES+="${name#\# }; "; continue ;;
+    esac
+    i=$((i+1)); bin="$d/vcheck.cfg.$i"
+    if (cd "$H" && env $env go build "${OV[@]}" ${tags:+-tags "$tags"} -o "$bin" ./cmd/vcheck) 2>"$bin.log"; then
+      VERIF_CFG_LIST+="$name|$bin|$env|$tags;"
+    else
+      VERIF_CFG_NOTES+="the build of configuration $name failed: $(tail -c 200 "$bin.log" | tr '\n' ' '); "
+    fi
+  done <<< "$list"
+  export VERIF_CFG_LIST VERIF_CFG_NOTES
+}
+
 cmd=${1:-}
 case "$cmd" in
   setup)
@@ -78,6 +118,7 @@ case "$cmd" in
     w32_build "$WORK/vcheck.setup.386"
     build "$WORK/vcheck.setup.debug" -tags debug || exit 2
     mkdir -p "$WORK/setup.c19"; c19_builds "$WORK/setup.c19"
+    (cd "$H" && go build -o "$WORK/vcheck.setup.vconfigs" ./cmd/vconfigs)
     rm -rf "$WORK"/vcheck.setup* "$WORK/setup.c19"
     exit 0 ;;
   replay)
@@ -100,6 +141,14 @@ case "$cmd" in
       [ -n "${VERIF_TAGDEBUG_BIN:-}" ] || { echo "check.sh: cannot build the -tags debug binary" >&2; exit 2; }
       "$bin" -replay "$2"; rc=$?
       rm -rf "$bin" "$bin.log"; exit $rc
+    fi
+    if grep -q '"build_config"' "$2" 2>/dev/null; then
+      # a case recorded by a pass in a discovered build configuration: same environment and tags
+      cenv=$(python3 -c "import json,sys; print(json.load(open(sys.argv[1]))['build_config'].get('env',''))" "$2")
+      ctags=$(python3 -c "import json,sys; print(json.load(open(sys.argv[1]))['build_config'].get('tags',''))" "$2")
+      (cd "$H" && env $cenv go build "${OV[@]}" ${ctags:+-tags "$ctags"} -o "$bin" ./cmd/vcheck) || { echo "check.sh: cannot build that configuration" >&2; exit 2; }
+      "$bin" -replay "$2"; rc=$?
+      rm -rf "$bin"; exit $rc
     fi
     build "$bin" || exit 2
     if grep -q '"property": "C03"' "$2" 2>/dev/null; then
@@ -125,6 +174,7 @@ trap 'rm -rf "$D"' EXIT
 build "$D/vcheck" || exit 2
 case "$W32_PROPS" in *" $id "*) w32_build "$D/vcheck.386" ;; esac
 case "$TAGDEBUG_PROPS" in *" $id "*) tagdebug_build "$D/vcheck.tagdebug" ;; esac
+discover_cfgs "$id" "$D"
 case "$id" in
   C19)
     c19_builds "$D" ;;
